@@ -18,12 +18,16 @@ EXTENDS Integers, Sequences, FiniteSets, TLC, Json
 
 CONSTANTS N,        \* length of a plain vector (a multi-component object has 2*N entries)
           MAXLEN,   \* program length
-          OPS       \* enabled statement kinds
+          OPS,      \* enabled statement kinds
+          HASPAR    \* TRUE: the two-part object carries PARAMETER arrays besides its values (particles: charge q and mass m).
+                    \* Copy construction copies them; arithmetic hands the first operand's arrays on to the result (that is
+                    \* what the class does -- sharing, not modification); explicit item assignment writes them in place
 
 Names == {"a", "b", "c"}
 
 VARIABLES env,    \* name -> object id (0 = unbound)
-          objs,   \* object id -> [ty, buf, idx]   ty in {"mesh", "mc"}; idx = the buffer positions the object shows, in order
+          objs,   \* object id -> [ty, buf, idx, par]  (par = buffer with the parameter arrays, 0 = none)
+                  \* ty, buf, idx:   ty in {"mesh", "mc"}; idx = the buffer positions the object shows, in order
                   \* (a contiguous window for ordinary objects, every second position for strided views)
           bufs,   \* buffer id -> sequence of integers
           nobj, nbuf,
@@ -47,26 +51,34 @@ MaxAbs(s) == CHOOSE m \in {Abs(s[i]) : i \in 1 .. Len(s)} : \A i \in 1 .. Len(s)
 \* what the harness can observe
 Observe(e, ob, bf) ==
     [x \in Names |->
-        IF e[x] = 0 THEN [bound |-> FALSE, ty |-> "-", val |-> <<>>, shares |-> {}]
+        IF e[x] = 0 THEN [bound |-> FALSE, ty |-> "-", val |-> <<>>, shares |-> {}, par |-> <<>>, pshares |-> {}]
         ELSE [bound |-> TRUE, ty |-> ob[e[x]].ty,
               val |-> [i \in 1 .. Len(ob[e[x]].idx) |-> bf[ob[e[x]].buf][ob[e[x]].idx[i]]],
               shares |-> {y \in Names : e[y] # 0 /\ ob[e[x]].buf = ob[e[y]].buf
-                                        /\ Positions(ob, e[x]) \cap Positions(ob, e[y]) # {}}]]
+                                        /\ Positions(ob, e[x]) \cap Positions(ob, e[y]) # {}},
+              par |-> IF ob[e[x]].par = 0 THEN <<>> ELSE bf[ob[e[x]].par],
+              pshares |-> {y \in Names : e[y] # 0 /\ ob[e[x]].par # 0 /\ ob[e[y]].par = ob[e[x]].par}]]
 
 \* allocate a fresh object with a fresh buffer holding `vals`, bind it to x
-Fresh(x, ty, vals, stmt, absval) ==
-    /\ nobj' = nobj + 1 /\ nbuf' = nbuf + 1
-    /\ objs' = objs @@ (nobj + 1 :> [ty |-> ty, buf |-> nbuf + 1, idx |-> [i \in 1 .. Len(vals) |-> i]])
-    /\ bufs' = bufs @@ (nbuf + 1 :> vals)
+\* pr: 0 = no parameter arrays; -k = a fresh copy of buffer k; k > 0 = share buffer k
+FreshP(x, ty, vals, stmt, absval, pr) ==
+    /\ nobj' = nobj + 1 /\ nbuf' = nbuf + (IF pr < 0 THEN 2 ELSE 1)
+    /\ objs' = objs @@ (nobj + 1 :> [ty |-> ty, buf |-> nbuf + 1, idx |-> [i \in 1 .. Len(vals) |-> i],
+                                       par |-> IF pr < 0 THEN nbuf + 2 ELSE pr])
+    /\ bufs' = IF pr < 0 THEN bufs @@ (nbuf + 1 :> vals) @@ (nbuf + 2 :> bufs[-pr]) ELSE bufs @@ (nbuf + 1 :> vals)
     /\ env' = [env EXCEPT ![x] = nobj + 1]
     /\ prog' = Append(prog, stmt)
     /\ lastabs' = absval
     /\ obs' = Append(obs, Observe(env', objs', bufs'))
+ParOf(y) == objs[env[y]].par
+Fresh(x, ty, vals, stmt, absval) == FreshP(x, ty, vals, stmt, absval, 0)
 
 Init ==
-    /\ nobj = 2 /\ nbuf = 2
-    /\ objs = (1 :> [ty |-> "mesh", buf |-> 1, idx |-> [i \in 1 .. N |-> i]]) @@ (2 :> [ty |-> "mc", buf |-> 2, idx |-> [i \in 1 .. 2 * N |-> i]])
+    /\ nobj = 2 /\ nbuf = IF HASPAR THEN 3 ELSE 2
+    /\ objs = (1 :> [ty |-> "mesh", buf |-> 1, idx |-> [i \in 1 .. N |-> i], par |-> 0])
+               @@ (2 :> [ty |-> "mc", buf |-> 2, idx |-> [i \in 1 .. 2 * N |-> i], par |-> IF HASPAR THEN 3 ELSE 0])
     /\ bufs = (1 :> [i \in 1 .. N |-> i]) @@ (2 :> [i \in 1 .. 2 * N |-> 10 * i])
+              @@ (IF HASPAR THEN (3 :> [i \in 1 .. 2 * N |-> 1]) ELSE <<>>)
     /\ env = [x \in Names |-> IF x = "a" THEN 1 ELSE IF x = "b" THEN 2 ELSE 0]
     /\ prog = <<>> /\ lastabs = 0
     /\ obs = <<Observe(env, objs, bufs)>>
@@ -74,7 +86,7 @@ Init ==
 More == Len(prog) < MAXLEN
 
 \* x = type(y)(y)
-Copy(x, y) == "copy" \in OPS /\ More /\ Bound(y) /\ Fresh(x, Ty(y), Val(y), <<"copy", x, y>>, lastabs)
+Copy(x, y) == "copy" \in OPS /\ More /\ Bound(y) /\ FreshP(x, Ty(y), Val(y), <<"copy", x, y>>, lastabs, -ParOf(y))
 \* x = y
 Alias(x, y) == /\ "alias" \in OPS /\ More /\ Bound(y) /\ x # y
                /\ env' = [env EXCEPT ![x] = env[y]]
@@ -83,14 +95,14 @@ Alias(x, y) == /\ "alias" \in OPS /\ More /\ Bound(y) /\ x # y
                /\ UNCHANGED <<objs, bufs, nobj, nbuf, lastabs>>
 \* x = y + z, x = y - z   (same type and size)
 Bin(x, y, z, op) == /\ "bin" \in OPS /\ More /\ Bound(y) /\ Bound(z) /\ Ty(y) = Ty(z) /\ LenOf(y) = LenOf(z)
-                    /\ Fresh(x, Ty(y), [i \in 1 .. LenOf(y) |-> IF op = "add" THEN Val(y)[i] + Val(z)[i] ELSE Val(y)[i] - Val(z)[i]],
-                             <<op, x, y, z>>, lastabs)
+                    /\ FreshP(x, Ty(y), [i \in 1 .. LenOf(y) |-> IF op = "add" THEN Val(y)[i] + Val(z)[i] ELSE Val(y)[i] - Val(z)[i]],
+                              <<op, x, y, z>>, lastabs, ParOf(y))
 \* x = 2 * y ; x = y * 2
 Scale(x, y, side) == "scale" \in OPS /\ More /\ Bound(y)
-                     /\ Fresh(x, Ty(y), [i \in 1 .. LenOf(y) |-> 2 * Val(y)[i]], <<"scale", x, y, side>>, lastabs)
+                     /\ FreshP(x, Ty(y), [i \in 1 .. LenOf(y) |-> 2 * Val(y)[i]], <<"scale", x, y, side>>, lastabs, ParOf(y))
 \* x += y : augmented assignment REBINDS x to a fresh object; everything that referred to the old object is untouched
 Aug(x, y) == /\ "aug" \in OPS /\ More /\ Bound(x) /\ Bound(y) /\ Ty(x) = Ty(y) /\ LenOf(x) = LenOf(y)
-             /\ Fresh(x, Ty(x), [i \in 1 .. LenOf(x) |-> Val(x)[i] + Val(y)[i]], <<"aug", x, y>>, lastabs)
+             /\ FreshP(x, Ty(x), [i \in 1 .. LenOf(x) |-> Val(x)[i] + Val(y)[i]], <<"aug", x, y>>, lastabs, ParOf(x))
 \* x *= 2 (scalar operand): REBINDS x to a fresh object as well -- aliases and component views of the old object are untouched
 AugScalar(x) == /\ "augscalar" \in OPS /\ More /\ Bound(x)
                 /\ Fresh(x, Ty(x), [i \in 1 .. LenOf(x) |-> 2 * Val(x)[i]], <<"augscalar", x>>, lastabs)
@@ -114,11 +126,17 @@ SetItem(x) == /\ "setitem" \in OPS /\ More /\ Bound(x)
               /\ prog' = Append(prog, <<"setitem", x>>)
               /\ obs' = Append(obs, Observe(env, objs, bufs'))
               /\ UNCHANGED <<env, objs, nobj, nbuf, lastabs>>
+\* x.q[0] = 7 : explicit item assignment into the parameter arrays -- in place, seen by everything that shares them
+SetPar(x) == /\ "setpar" \in OPS /\ More /\ Bound(x) /\ ParOf(x) # 0
+             /\ bufs' = [bufs EXCEPT ![ParOf(x)][1] = 7]
+             /\ prog' = Append(prog, <<"setpar", x>>)
+             /\ obs' = Append(obs, Observe(env, objs, bufs'))
+             /\ UNCHANGED <<env, objs, nobj, nbuf, lastabs>>
 \* x = y.<component k> : a mesh VIEW of the parent's buffer
 Comp(x, y, k) == /\ "comp" \in OPS /\ More /\ Bound(y) /\ Ty(y) = "mc" /\ x # y
                  /\ nobj' = nobj + 1
                  /\ LET h == Len(objs[env[y]].idx) \div 2 IN
-                    objs' = objs @@ (nobj + 1 :> [ty |-> "mesh", buf |-> objs[env[y]].buf, idx |-> SubSeq(objs[env[y]].idx, k * h + 1, (k + 1) * h)])
+                    objs' = objs @@ (nobj + 1 :> [ty |-> "mesh", buf |-> objs[env[y]].buf, idx |-> SubSeq(objs[env[y]].idx, k * h + 1, (k + 1) * h), par |-> 0])
                  /\ env' = [env EXCEPT ![x] = nobj + 1]
                  /\ prog' = Append(prog, <<"comp", x, y, k>>)
                  /\ obs' = Append(obs, Observe(env', objs', bufs))
@@ -131,7 +149,7 @@ Stride(x, y) == /\ "stride" \in OPS /\ More /\ Bound(y) /\ x # y
                        h == Len(o.idx) \div 2
                        ni == IF o.ty = "mc" THEN EverySecond(SubSeq(o.idx, 1, h)) \o EverySecond(SubSeq(o.idx, h + 1, 2 * h)) ELSE EverySecond(o.idx)
                    IN /\ (IF o.ty = "mc" THEN h >= 2 ELSE Len(o.idx) >= 2)
-                      /\ objs' = objs @@ (nobj + 1 :> [ty |-> o.ty, buf |-> o.buf, idx |-> ni])
+                      /\ objs' = objs @@ (nobj + 1 :> [ty |-> o.ty, buf |-> o.buf, idx |-> ni, par |-> 0])
                 /\ nobj' = nobj + 1
                 /\ env' = [env EXCEPT ![x] = nobj + 1]
                 /\ prog' = Append(prog, <<"stride", x, y>>)
@@ -147,14 +165,14 @@ AbsOf(x) == /\ "abs" \in OPS /\ More /\ Bound(x)
 Next ==
     \E x, y, z \in Names :
         \/ Copy(x, y) \/ Alias(x, y) \/ Bin(x, y, z, "add") \/ Bin(x, y, z, "sub") \/ Scale(x, y, "l") \/ Scale(x, y, "r")
-        \/ Aug(x, y) \/ AugScalar(x) \/ Ufunc(x, y) \/ OutArg(x, y, z) \/ SetAll(x, y) \/ SetItem(x) \/ Comp(x, y, 0) \/ Comp(x, y, 1) \/ Stride(x, y) \/ AbsOf(x)
+        \/ Aug(x, y) \/ AugScalar(x) \/ SetPar(x) \/ Ufunc(x, y) \/ OutArg(x, y, z) \/ SetAll(x, y) \/ SetItem(x) \/ Comp(x, y, 0) \/ Comp(x, y, 1) \/ Stride(x, y) \/ AbsOf(x)
 
 Spec == Init /\ [][Next]_vars
 
 \* ---- the contract as properties of the model -------------------------------------------------
 \* only explicit item assignment changes the content of an existing buffer
 NoOperandMutation ==
-    [][(Len(prog') > Len(prog) /\ prog'[Len(prog')][1] \notin {"setall", "setitem"}) =>
+    [][(Len(prog') > Len(prog) /\ prog'[Len(prog')][1] \notin {"setall", "setitem", "setpar"}) =>
             \A b \in 1 .. nbuf : bufs'[b] = bufs[b]]_vars
 \* a statement never changes what an unrelated name sees, unless memory is shared with the assigned window
 NoSpookyAction ==
@@ -166,10 +184,10 @@ NoSpookyAction ==
 CopyIndependent ==
     [][(Len(prog') > Len(prog) /\ prog'[Len(prog')][1] = "copy") =>
             LET x == prog'[Len(prog')][2] y == prog'[Len(prog')][3] IN
-            x = y \/ ~ (objs'[env'[x]].buf = objs'[env'[y]].buf)]_vars
+            x = y \/ (~ (objs'[env'[x]].buf = objs'[env'[y]].buf) /\ (ParOf(y) = 0 \/ objs'[env'[x]].par # objs'[env'[y]].par))]_vars
 \* component views share the parent's buffer
 ViewShares == \A x, y \in Names : (Bound(x) /\ Bound(y) /\ Overlap(env[x], env[y])) => objs[env[x]].buf = objs[env[y]].buf
 TypeOK == \A x \in Names : Bound(x) => Ty(x) \in {"mesh", "mc"} /\ LenOf(x) \in 1 .. 2 * N
 
-Export == (Len(prog) = MAXLEN) => PrintT(ToJson([vs |-> TRUE, prog |-> prog, obs |-> obs]))
+Export == (Len(prog) = MAXLEN) => PrintT(ToJson([vs |-> TRUE, haspar |-> HASPAR, prog |-> prog, obs |-> obs]))
 =============================================================================
